@@ -17,8 +17,14 @@ def regenerate(which=("consts",)):
             if rc != 0:
                 raise C.BuildError("fact extraction failed (sources do not type-check?):\n" + o)
             notes.append("Consts.lean regenerated from %s" % C.REPO)
+        if "access" in which:
+            os.makedirs(C.WORK, exist_ok=True)
+            rc, o = C.sh([exe, "access", C.REPO, os.path.join(gen, "AccessIR.lean"), os.path.join(C.WORK, "access.json")], env=C.GOENV)
+            if rc != 0:
+                raise C.BuildError("Go -> inertness IR translation failed (sources do not type-check?):\n" + o)
+            notes.append("AccessIR.lean regenerated from %s" % C.REPO)
     return "; ".join(notes)
 
 
 if __name__ == "__main__":
-    print(regenerate())
+    print(regenerate(["consts", "access"]))
